@@ -135,3 +135,13 @@ Theorem c04_snapshot_function_is_source :
      SReturn [GVar "res"]].
 Proof. exact DecSnapshot.snapshot_function. Qed.
 Print Assumptions c04_snapshot_function_is_source.
+
+From GK Require Import DecEvict.
+(* items are shared between the versions a snapshot and the original hold: eviction forgets an item, it never edits it *)
+Theorem c04_visit_evicts_whole_items_is_source :
+  In "func(evictNode *node) {  if i := evictNode.Evict(); i != nil {   o.ItemDecRef(t, i)  } }" (calls 400 (body "Store.visitNodes")) /\
+  (exists c, hd_error (conds 400 (body "Store.visitNodes")) = Some c) /\
+  count_occ string_dec (calls 400 (body "Store.visitNodes")) "nNode.Evict" = 0%nat /\
+  List.length (List.filter (has_sub "Evict") (calls 400 (body "Store.visitNodes"))) = 1%nat.
+Proof. exact DecEvict.visit_evicts_whole_items. Qed.
+Print Assumptions c04_visit_evicts_whole_items_is_source.
